@@ -6,6 +6,7 @@ import (
 	"fmt"
 	"reflect"
 	"sort"
+	"strings"
 	"testing"
 	"testing/synctest"
 	"time"
@@ -231,6 +232,35 @@ func (w *World) armFault(fp faultPoint) {
 	}
 }
 
+// armSecond adds a second fault without resetting windows or counters (pairs of faults).
+func (w *World) armSecond(fp faultPoint) {
+	switch fp.kind {
+	case "load-fail", "load-notfound":
+		// the disk has one load-fault slot: a second load fault is placed only if the first is not one
+		for _, d := range w.disks {
+			if d.FailLoadAt == 0 {
+				d.FailLoadAt = fp.idx
+				d.FailLoadKind = strings.TrimPrefix(fp.kind, "load-")
+				if d.FailLoadKind == "fail" {
+					d.FailLoadKind = "fail"
+				}
+			}
+		}
+	case "compare-fail":
+		if w.seams.failCmp == 0 {
+			w.seams.failCmp = fp.idx
+		}
+	case "marshal-fail":
+		if w.seams.failMar == 0 {
+			w.seams.failMar = fp.idx
+		}
+	case "unmarshal-fail":
+		if w.seams.failUnm == 0 {
+			w.seams.failUnm = fp.idx
+		}
+	}
+}
+
 func (w *World) disarm() {
 	for _, d := range w.disks {
 		d.ClearFaults()
@@ -310,6 +340,10 @@ func (w *World) runFault() {
 		return
 	}
 	fp := faultPoint{kind: faultKinds[w.extra["fault_kind"]%len(faultKinds)], idx: w.extra["fault_index"]}
+	var fp2 *faultPoint
+	if w.extra["fault_index2"] > 0 {
+		fp2 = &faultPoint{kind: faultKinds[w.extra["fault_kind2"]%len(faultKinds)], idx: w.extra["fault_index2"]}
+	}
 	// pre-op observation (fault-free)
 	tr := w.faultTarget(op)
 	if tr == nil {
@@ -324,6 +358,9 @@ func (w *World) runFault() {
 	}
 	preSize, preHeight := tr.m.Size(), tr.m.Height()
 	w.armFault(fp)
+	if fp2 != nil {
+		w.armSecond(*fp2)
+	}
 	_, res, ok := w.rawExec(op)
 	fired := 0
 	for _, d := range w.disks {
@@ -352,7 +389,27 @@ func (w *World) runFault() {
 	w.st.Probes["op-returned-error"]++
 	// the signature names the failing call site by the leading wrap of the returned error
 	// (e.g. "shrink", "split", "canGrow"), so that a different site is a different finding
-	sigTail := op.K + "/" + fp.kind + "/" + errSite(res.err)
+	// the fault kind in the signature is the one whose error actually came back (with pairs of
+	// faults the first armed one may have been absorbed)
+	kind := fp.kind
+	switch {
+	case errors.Is(res.err, ErrInjMarshal):
+		kind = "marshal-fail"
+	case errors.Is(res.err, ErrInjCompare):
+		kind = "compare-fail"
+	case errors.Is(res.err, ErrInjUnmarshal):
+		kind = "unmarshal-fail"
+	case errors.Is(res.err, ErrInjLoad):
+		kind = "load-fail"
+	case errors.Is(res.err, ErrInjNotFound):
+		kind = "load-notfound"
+	case strings.Contains(res.err.Error(), ErrInjUnmarshal.Error()):
+		kind = "unmarshal-fail"
+	}
+	sigTail := op.K + "/" + kind + "/" + errSite(res.err)
+	if fp2 != nil {
+		w.st.Probes["fault-pairs-judged"]++
+	}
 	obs, or := w.observe(tr.m)
 	if or.bad() {
 		w.fail("unreadable-after-error/"+sigTail, "%s returned %v under %s#%d; with the fault cleared the tree cannot be iterated: %s", op.K, res.err, fp.kind, fp.idx, or)
@@ -465,6 +522,37 @@ outer:
 				kind  int
 				count int
 			}{{0, cw.counted["load"]}, {1, cw.counted["load"]}, {2, cw.counted["compare"]}, {3, cw.counted["marshal"]}, {4, cw.counted["unmarshal"]}}
+			// sampled pairs of faults (different kinds) on the same op
+			pg := NewGen(mixSeed(seed, uint64(j), 99))
+			for pi := 0; pi < 6; pi++ {
+				a, b := kinds[pg.Intn(len(kinds))], kinds[pg.Intn(len(kinds))]
+				if a.count == 0 || b.count == 0 || a.kind == b.kind || (a.kind <= 1 && b.kind <= 1) {
+					continue
+				}
+				fs := sc.Clone()
+				fs.Extra = map[string]int{"fault_kind": a.kind, "fault_index": 1 + pg.Intn(min(a.count, 24)), "fault_kind2": b.kind, "fault_index2": 1 + pg.Intn(min(b.count, 24))}
+				w := RunFaultScenario(t, fs)
+				faultRuns++
+				rep.Evaluations++
+				rep.absorb(w.st)
+				if w.viol != nil {
+					if k, ok := env.Known[w.viol.Sig]; ok {
+						rep.KnownHits[w.viol.Sig]++
+						rep.KnownWhat[w.viol.Sig] = k.Finding
+						continue
+					}
+					vr := handleViolation(t, env, fs, w, RunFaultScenario)
+					if vr.Replay == "" {
+						rep.Truncated["violation-not-reproducible-in-fresh-process"]++
+						continue
+					}
+					rep.Violations = append(rep.Violations, vr)
+					unknown++
+					if unknown >= 3 {
+						break outer
+					}
+				}
+			}
 			for _, kc := range kinds {
 				cnt := kc.count
 				if cnt > 24 {
@@ -529,6 +617,6 @@ func init() {
 	profiles["C12"] = map[string]int{"ins": 30, "del": 16, "get": 8, "iter": 3, "seek": 4, "diff": 5, "clone": 3, "cur": 5, "persist": 10, "reload": 10, "fork": 3, "restart": 2}
 	propTable["C12"] = PropInfo{Engine: "faultenum", Level: "fault_enumeration", QuickS: 16, ThorS: 480,
 		Rule: "one evaluation = one execution of (history prefix, covered op) — either a fault-free counting run or a run with exactly one seam call of that op failing (Persist.Load error / not-found, KeyCompare, Marshal, Unmarshal at call index i, every i up to 24 per kind); non-trivial = the fault fired and the op returned an error (so the unchanged-tree and retry oracles were evaluated) or absorbed it; distinct = hash of (config, prefix op kinds/keys, fault kind, call index)",
-		Assumptions: []string{"single faults per operation (pairs are not enumerated in this tier)", "a panic under an injected fault is counted, not reported: the property speaks of calls that return an error"},
+		Assumptions: []string{"every single fault per operation is enumerated (first 24 call indexes per kind); pairs of faults of different kinds are sampled (6 per op)", "a panic under an injected fault is counted, not reported: the property speaks of calls that return an error"},
 	}
 }
